@@ -135,7 +135,7 @@ def tlc_enumerate(spec, cfg=None, env=None, timeout=600, need_recs=True, workers
     e = dict(os.environ, JAVA_TOOL_OPTIONS=JAVA_OPTS)
     if env:
         e.update(env)
-    md = os.path.join(VERIF, "work", "gen", "states_" + spec.replace(".tla", ""))
+    md = os.path.join(VERIF, "work", "gen", "states_" + spec.replace(".tla", "") + "_" + str(os.getpid()) + "_" + str(time.time_ns() % 100000))
     os.makedirs(os.path.dirname(md), exist_ok=True)
     try:
         p = subprocess.run(["tlc", "-workers", str(workers), "-metadir", md, "-cleanup", "-noGenerateSpecTE", "-config", cfg, spec],
